@@ -82,6 +82,8 @@ type genSt struct {
 	// sess-api (l1_api_gen.go)
 	viaAPI, pingFail, infoSent bool
 	infoM, infoT               int
+	held                           bool // a consumer call is kept in flight (hold-next … release) on vBucket heldVb
+	heldVb, nReb                   int
 	nvbTot, memM, memT, effM, effT int // group mode: vBuckets of the bucket, newest membership info, info in effect
 }
 
@@ -168,7 +170,13 @@ func (g *genSt) randColl() int {
 	return r.Intn(12)
 }
 
-func (g *genSt) pickVb() int { return g.lo + g.c.R.Intn(g.hi-g.lo+1) }
+func (g *genSt) pickVb() int {
+	vb := g.lo + g.c.R.Intn(g.hi-g.lo+1)
+	if g.held && vb == g.heldVb && g.hi > g.lo {
+		vb = g.lo + (vb-g.lo+1)%(g.hi-g.lo+1) // sess-api: nothing is delivered behind a consumer call that is still in flight
+	}
+	return vb
+}
 
 // a vBucket whose stream the server still has (same draw as pickVb when no stream has ended)
 func (g *genSt) pickLive() int {
@@ -670,6 +678,9 @@ func (g *genSt) life() {
 		g.tags["life.close"] = true
 		if r.Chance(50) {
 			g.do("save ok")
+		}
+		if g.p.pApi > 0 {
+			g.apiBeforeClose() // sometimes with a consumer call in flight across the close
 		}
 		g.do("close")
 		if r.Chance(30) {
